@@ -1,4 +1,5 @@
 import XdsVerif.Proofs.Conc
+import XdsVerif.Proofs.Sys
 import XdsVerif.Generated.Facts
 /-!
 # C05 — a lookup returns a value of the requested kind xor an error, in bounded time
@@ -13,6 +14,11 @@ open XdsVerif.Conc
 abbrev V : Variant := Generated.getVariant
 
 theorem facts_get : V = expectedVariant := by decide
+
+/-- bridge: `Get`, `getFromCache` and `notifier.notify` are, statement for statement, the bodies the interleaving model
+was written against (the three shape facts only cover what their recognisers look for: a new lock-free gap, a second
+lock region or a moved statement changes this fingerprint) -/
+theorem facts_get_body : Generated.getFingerprint = expectedGetFingerprint := by decide
 
 /-- bridge: an unknown kind is rejected by the first statement of `Get`, before any cache access or subscription -/
 theorem facts_kind_check : Generated.kindCheckFirst = true := by decide
@@ -165,6 +171,29 @@ theorem always_progress (tn : Nat → Name) (ls : List Lbl) (s : S) (h : runL V 
     simp only [cstep, hp]
     exact ⟨_, rfl, by simp⟩
   | done r => exact absurd hp (hnd r)
+
+/-! ### against the real response handling (`Model/Sys.lean`: lookups × client × receiver sections) -/
+
+/-- result shape in the composed system: every schedule — responses acknowledged, filtered and applied in separate
+lock sections, the sender, reconnects, evictions and other lookups in between — every finished lookup has a value
+or an error -/
+theorem result_shape_sys (cfg : Seq.Cfg) (T : Seq.RType) (tn : Nat → Name) (ls : List Sys.Lbl) (s : Sys.St)
+    (e : Sys.Emit) (h : Sys.run cfg V T tn Sys.init ls = some (s, e)) (i : Nat) (r : Res)
+    (hd : s.conc.pc i = .done r) : (∃ v, r = .val v) ∨ r = .err :=
+  result_shape tn e.conc s.conc (Sys.run_conc cfg V T tn ls Sys.init s e h) i r hd
+
+/-- **never a placeholder, end to end**: the value a lookup returns is the content the *client's* cache holds for
+that name at the step that returns it (and that content is the fold of the accepted responses: C01) -/
+theorem value_is_served_content (cfg : Seq.Cfg) (T : Seq.RType) (tn : Nat → Name) (ls : List Sys.Lbl)
+    (s s' : Sys.St) (e e' : Sys.Emit) (l : Sys.Lbl) (h : Sys.run cfg V T tn Sys.init ls = some (s, e))
+    (i : Nat) (v : Val) (hnd : ∀ r, s.conc.pc i ≠ .done r)
+    (hs : Sys.step cfg V T tn s l = some (s', e')) (hd : s'.conc.pc i = .done (.val v)) :
+    s.seq.cache T (tn i) = some v := by
+  have hC := Sys.coupled_run cfg V T tn ls Sys.init s e (Sys.coupled_init T) h
+  rcases Sys.step_conc_one cfg V T tn s s' l e' hs with ⟨_, hsame⟩ | ⟨l', _, hl'⟩
+  · rw [hsame] at hd; exact absurd hd (hnd _)
+  · rw [← hC (tn i)]
+    exact (value_was_served tn s.conc s'.conc l' i v hnd hl' hd).1
 
 /-- S8 (kept as documentation): with the unchecked re-read a removal between the wake-up and the re-read yields neither -/
 theorem s8_nilnil :
